@@ -303,6 +303,13 @@ func registerFiles(e *Engine) {
 		c.E.fileSet(st, p, f)
 		return one(st, nil)
 	})
+	e.reg(z+"FileState", func(c *CallCtx, st *State, args []Value) []Outcome {
+		p := c.E.pathArg(args[0], "FileState")
+		f := c.E.fileGet(st, p)
+		f = with(with(with(with(f, fExists, args[1]), fGarbage, args[2]), fValue, args[3]), fFloat, Opaque{What: "nofloat"})
+		c.E.fileSet(st, p, f)
+		return one(st, nil)
+	})
 	e.reg(z+"FilePutFloat", func(c *CallCtx, st *State, args []Value) []Outcome {
 		p := c.E.pathArg(args[0], "FilePutFloat")
 		f := c.E.fileGet(st, p)
